@@ -4,6 +4,8 @@ import (
 	"fmt"
 	"reflect"
 	"strings"
+	"unicode"
+	"unicode/utf8"
 
 	"github.com/pkg/errors"
 	"github.com/sanity-io/litter"
@@ -448,9 +450,21 @@ func (v *anyOfValidator) desc() *validatorDesc {
 }
 
 func lowerFirst(s string) string {
-	return strings.ToLower(s[:1]) + s[1:]
+	if s == "" {
+		return s
+	}
+
+	r, size := utf8.DecodeRuneInString(s)
+
+	return string(unicode.ToLower(r)) + s[size:]
 }
 
 func upperFirst(s string) string {
-	return strings.ToUpper(s[:1]) + s[1:]
+	if s == "" {
+		return s
+	}
+
+	r, size := utf8.DecodeRuneInString(s)
+
+	return string(unicode.ToUpper(r)) + s[size:]
 }
